@@ -338,27 +338,10 @@ func checkC12(P *Prog, r *Result) {
 	// node's path wrapping exactly that error
 	if fn := P.fn("(*zog/internals.SchemaCtx).IssueFromUnknownError"); fn != nil {
 		r.sawFunc(fname(fn))
-		sh := P.predicateShape(fn)
-		var rows []string
-		for _, p := range sh.paths {
-			var conds []string
-			for _, a := range p.conds {
-				if strings.Contains(a, ".Dtype ") {
-					continue // filling in a missing type does not change which issue is returned
-				}
-				conds = append(conds, a)
-			}
-			rows = append(rows, strings.Join(conds, " ∧ ")+" ⇒ "+p.ret)
-		}
-		rows = uniqSorted(rows)
-		want := []string{
-			"!ok(ctx.(*zog/internals.ZogIssue)) ⇒ (*zog/internals.ZogIssue).SetError((*zog/internals.SchemaCtx).Issue(val), ctx)",
-			"ok(ctx.(*zog/internals.ZogIssue)) ⇒ ctx.(*zog/internals.ZogIssue)",
-		}
-		if strings.Join(rows, "\n") == strings.Join(want, "\n") && len(sh.problems) == 0 {
-			r.ok("C12/unknown-error-shape", fname(fn), P.pos(fn.Pos()), "err.(*ZogIssue) ? that issue : ctx.Issue().SetError(err)")
+		if problems := P.unknownErrorShape(fn); len(problems) == 0 {
+			r.ok("C12/unknown-error-shape", fname(fn), P.pos(fn.Pos()), "err.(*ZogIssue) ? that issue, untouched but for a missing type : a fresh issue whose Err is err and whose Path is the context's")
 		} else {
-			r.bad("C12/unknown-error-shape", fname(fn), P.pos(fn.Pos()), "a callback's error is not reported as (the returned *ZogIssue itself | a fresh issue at the node's path wrapping exactly that error)", append([]string{"found:"}, rows...)...)
+			r.bad("C12/unknown-error-shape", fname(fn), P.pos(fn.Pos()), "a callback's error is not reported as (the returned *ZogIssue itself | a fresh issue at the node's path wrapping exactly that error)", problems...)
 		}
 	} else {
 		r.broken("anchor IssueFromUnknownError not found")
@@ -685,4 +668,204 @@ func valueMentions(v, x ssa.Value, depth int) bool {
 		}
 	}
 	return false
+}
+
+// unknownErrorShape decides, on the paths of IssueFromUnknownError (helpers entered), that
+//   - when the error is a *ZogIssue, that very issue is returned and neither its Err nor its Path is written;
+//   - otherwise a fresh issue (from the pool or allocated) is returned, whose Err was last written with the
+//     error parameter and whose Path was last written with the String() of the context's own Path.
+func (P *Prog) unknownErrorShape(fn *ssa.Function) []string {
+	R := P.roles
+	if len(fn.Params) != 2 {
+		return []string{"unexpected signature"}
+	}
+	recv, errP := ssa.Value(fn.Params[0]), ssa.Value(fn.Params[1])
+	errF := structField(R.ZogIssue, "Err")
+	pathF := structField(R.ZogIssue, "Path")
+	ctxPathF := structField(R.SchemaCtx, "Path")
+	if errF == nil || pathF == nil || ctxPathF == nil {
+		return []string{"the issue's Err/Path fields or the context's Path field were not found"}
+	}
+	isIssuePtr := func(t types.Type) bool {
+		pt, ok := t.(*types.Pointer)
+		return ok && types.Identical(pt.Elem().Underlying(), R.ZogIssue.Underlying())
+	}
+	assertOfErr := func(v ssa.Value) *ssa.TypeAssert {
+		v = cv(v)
+		if ex, ok := v.(*ssa.Extract); ok {
+			v = cv(ex.Tuple)
+		}
+		ta, ok := v.(*ssa.TypeAssert)
+		if !ok || cv(ta.X) != errP || !isIssuePtr(ta.AssertedType) {
+			return nil
+		}
+		return ta
+	}
+	var origin func(v ssa.Value, depth int) string
+	origin = func(v ssa.Value, depth int) string {
+		if depth > 12 || v == nil {
+			return "OTHER"
+		}
+		v = cv(v)
+		if ex, ok := v.(*ssa.Extract); ok && ex.Index == 0 {
+			if assertOfErr(ex) != nil {
+				return "ASSERTED"
+			}
+		}
+		switch x := v.(type) {
+		case *ssa.TypeAssert:
+			if assertOfErr(x) != nil {
+				return "ASSERTED"
+			}
+			if c, ok := cv(x.X).(*ssa.Call); ok && isSyncPoolMethod(callOf(c), "Get") {
+				return "FRESH"
+			}
+		case *ssa.Alloc:
+			if x.Heap {
+				return "FRESH"
+			}
+		case *ssa.Phi:
+			res := ""
+			for _, e := range x.Edges {
+				o := origin(e, depth+1)
+				if res != "" && o != res {
+					return "OTHER"
+				}
+				res = o
+			}
+			return res
+		case *ssa.Call:
+			g := callOf(x).static
+			if g == nil || g.Blocks == nil || !inModule(funcPkgPath(g)) || g.Signature.Results().Len() != 1 {
+				return "OTHER"
+			}
+			res := ""
+			eachInstr(g, func(_ *ssa.BasicBlock, _ int, in ssa.Instruction) {
+				rt, ok := in.(*ssa.Return)
+				if !ok {
+					return
+				}
+				vals, ok := retVals(rt)
+				if !ok || len(vals) != 1 {
+					return
+				}
+				o := "OTHER"
+				rv := cv(vals[0])
+				if prm, isP := rv.(*ssa.Parameter); isP && prm.Parent() == g {
+					for i, q := range g.Params {
+						if q == prm && i < len(x.Call.Args) {
+							o = origin(x.Call.Args[i], depth+1)
+						}
+					}
+				} else {
+					o = origin(rv, depth+1)
+				}
+				if res != "" && o != res {
+					o = "OTHER"
+				}
+				res = o
+			})
+			if res == "" {
+				return "OTHER"
+			}
+			return res
+		}
+		return "OTHER"
+	}
+	spec := &pathSpec{name: "unknown-error", inlineAll: true}
+	// (the path renderer is not entered: its call is the value looked for)
+	spec.keep = func(f *ssa.Function) bool {
+		return !inModule(funcPkgPath(f)) || (f.Name() == "String" && f.Signature.Recv() != nil)
+	}
+	spec.cond = func(iff *ssa.If) (string, string, string) {
+		ex, ok := cv(iff.Cond).(*ssa.Extract)
+		if ok && ex.Index == 1 && assertOfErr(ex) != nil {
+			return "IS-ISSUE", "T", "F"
+		}
+		if u, isU := cv(iff.Cond).(*ssa.UnOp); isU && u.Op == token.NOT {
+			if ex, ok := cv(u.X).(*ssa.Extract); ok && ex.Index == 1 && assertOfErr(ex) != nil {
+				return "IS-ISSUE", "F", "T"
+			}
+		}
+		return "", "", ""
+	}
+	spec.events = func(in ssa.Instruction) []pathItem {
+		st, ok := in.(*ssa.Store)
+		if !ok {
+			return nil
+		}
+		_, f := fieldVar(cv(st.Addr))
+		switch {
+		case f != nil && sameField(f, errF):
+			if cv(st.Val) == errP {
+				return []pathItem{{kind: "ERR", val: "param", in: in}}
+			}
+			return []pathItem{{kind: "ERR", val: "other", in: in}}
+		case f != nil && sameField(f, pathF):
+			if c, isC := cv(st.Val).(*ssa.Call); isC {
+				if ci := callOf(c); ci != nil && ci.static != nil && ci.static.Name() == "String" && len(ci.args()) == 1 {
+					if base, lf := loadOfField(cv(ci.args()[0])); lf != nil && sameField(lf, ctxPathF) && cv(base) == recv {
+						return []pathItem{{kind: "PATH", val: "own", in: in}}
+					}
+				}
+			}
+			return []pathItem{{kind: "PATH", val: "other", in: in}}
+		}
+		return nil
+	}
+	spec.onReturn = func(rt *ssa.Return) string {
+		if rt.Parent() != fn || len(rt.Results) != 1 {
+			return ""
+		}
+		return "ORIGIN=" + origin(rt.Results[0], 0)
+	}
+	res := P.enumPathsSpec(fn, nil, spec)
+	var problems []string
+	if res.capHit {
+		problems = append(problems, "too many paths to enumerate")
+	}
+	nT, nF := 0, 0
+	for _, p := range res.paths {
+		if !strings.HasPrefix(p.end, "RETURN") {
+			continue
+		}
+		is, lastErr, lastPath := "", "", ""
+		for _, it := range p.items {
+			switch it.kind {
+			case "IS-ISSUE":
+				is = it.val
+			case "ERR":
+				lastErr = it.val
+			case "PATH":
+				lastPath = it.val
+			}
+		}
+		switch {
+		case is == "":
+			problems = append(problems, "a return that is reached without asking whether the error is a *ZogIssue  [path: "+p.String()+"]")
+		case is == "T":
+			nT++
+			if !strings.Contains(p.end, "ORIGIN=ASSERTED") {
+				problems = append(problems, "the error is a *ZogIssue but another object is returned  [path: "+p.String()+"]")
+			}
+			if lastErr != "" || lastPath != "" {
+				problems = append(problems, "the callback's own issue has its Err or Path rewritten  [path: "+p.String()+"]")
+			}
+		default:
+			nF++
+			if !strings.Contains(p.end, "ORIGIN=FRESH") {
+				problems = append(problems, "a plain error is not returned inside a fresh issue  [path: "+p.String()+"]")
+			}
+			if lastErr != "param" {
+				problems = append(problems, "the fresh issue's Err is not the error it reports  [path: "+p.String()+"]")
+			}
+			if lastPath != "own" {
+				problems = append(problems, "the fresh issue's Path is not the String() of the context's path  [path: "+p.String()+"]")
+			}
+		}
+	}
+	if nT == 0 || nF == 0 {
+		problems = append(problems, "the two cases (the error is a *ZogIssue | it is not) were not both found")
+	}
+	return uniqSorted(problems)
 }
